@@ -1,8 +1,11 @@
-(* C14 — no per-call resource growth: the pending-call records of an endpoint are exactly the
-   calls still in flight (Model/Session.v). Goroutines, timers and sockets are runtime objects:
-   they are counted by the harness, not by the model (see DESIGN.md). *)
+(* C14 — no per-call or per-reconnect resource growth: the pending-call records of an endpoint are
+   exactly the calls still in flight (Model/Session.v); the pumps of a client's transports do not
+   accumulate over reconnects (Model/CloseLTS.v) and an ended server session keeps nothing
+   (Model/StopLTS.v). Goroutines, timers and sockets as runtime objects are counted by the
+   harness (see DESIGN.md); here they are the threads and flags of the models. *)
 From Coq Require Import List.
 From WV Require Import Model.Session Proofs.SessionP.
+From WV Require Model.CloseLTS Proofs.CloseP Proofs.CloseLive Model.StopLTS Proofs.StopP.
 Import ListNotations.
 
 (* In every state of every history with fresh ids, for both endpoints: the table holds exactly
@@ -18,3 +21,30 @@ Theorem C14_empty_at_quiescence : forall sa sb ls, NoDup (call_ids ls) ->
   (forall m, In m (calls (exec (init sa sb) ls)) -> snd m <> CPending) -> forall x, pend (exec (init sa sb) ls) x = [].
 Proof. exact empty_at_quiescence. Qed.
 Print Assumptions C14_empty_at_quiescence.
+
+(* the client, over any number of connection losses, failed dials, reconnects and Close calls (every schedule of
+   Model/CloseLTS.v): at any moment at most three transports have a write pump which has not ended - the current one, the one
+   the reconnect loop has in its hands, the one a Close is closing - and the read pump of a transport whose write pump has
+   ended is gone or ends by its own next step *)
+Module CL.
+Import WV.Model.CloseLTS WV.Proofs.CloseP WV.Proofs.CloseLive.
+Theorem C14_client_pumps_do_not_accumulate : forall ls, let s := exec good init ls in
+  (exists l, length l <= 3 /\ forall g, g < length (trs s) -> wp (getT s g) <> WPExit -> In g l) /\
+  (forall g, g < length (trs s) -> wp (getT s g) = WPExit -> rp (getT s g) <> RPExit -> exists s', step good s (LRp g) = Some s').
+Proof. exact pumps_do_not_accumulate. Qed.
+Print Assumptions C14_client_pumps_do_not_accumulate.
+End CL.
+
+(* the server, over any schedule of handshakes, sessions ending, key updates and Stop (Model/StopLTS.v): a session whose close
+   callback has run is unregistered, has released its wait-group unit and its reader, its socket is closed, and what is left
+   of it - a read pump, the reader - ends by its own next step *)
+Module SL.
+Import WV.Model.StopLTS WV.Proofs.StopP.
+Theorem C14_ended_server_session_keeps_nothing : forall ls i, let s := exec good init ls in
+  i < length (ss s) -> wp (getS s i) = WDone ->
+  reg (getS s i) = false /\ rel (getS s i) = true /\ sock (getS s i) = true /\
+  (rp (getS s i) <> RExit -> exists s', step good s (LRp i) = Some s') /\
+  (hr (getS s i) = HRun -> exists s', step good s (LHr i) = Some s').
+Proof. exact ended_session_leaves. Qed.
+Print Assumptions C14_ended_server_session_keeps_nothing.
+End SL.
